@@ -287,6 +287,11 @@ func (propC20) Gen(seed uint64, tier string, idx int) *Plan {
 			doc = []byte(`{"error":{"message":"backend says no","type":"server_error","code":500}}`)
 			ct = "application/json"
 		}
+		if r.Chance(60) {
+			// three digits that net/http's client accepts and its server refuses to send (WriteHeader panics
+			// outside 100..999), or that have no assigned meaning
+			status = pickS(r, []int{-1, 7, 99, 600, 999})
+		}
 		m, kind := c20Mutate(r, doc)
 		resp := Resp{Status: status, CType: pickS(r, []string{ct, ct, "text/html", ""}), Framing: pickS(r, []string{"cl", "chunked", "close"})}
 		// cut the mutated document into a few write pieces
